@@ -45,7 +45,7 @@ func main() {
 	}
 	r := emit.NewRand(*flagSeed)
 	meta := emit.NewMeta("e2e07", *flagSeed, *flagTier)
-	meta.Rule = "Range requests through the real proxy on a stored entry: spec catalogue + structured random specs x sizes {1,2,10,50,1000} x If-Range {none, matching/other ETag, date >=/< Last-Modified} x retry_on_invalid_range x backend {memory,file} x transport {plain, CONNECT}; distinct by (spec,size,if-range kind,retry,backend,transport); non-trivial = spec contains a digit or dash after '='"
+	meta.Rule = "Range requests through the real proxy on a stored entry: spec catalogue + structured random specs x sizes {1,2,10,50,1000} x stored ETag {strong, weak} x If-Range {none, matching/other ETag, stored tag with the weakness marker toggled, date >=/< Last-Modified} x retry_on_invalid_range x backend {memory,file} x transport {plain, CONNECT}; distinct by (spec,size,if-range kind,retry,backend,transport); non-trivial = spec contains a digit or dash after '='"
 	w := &emit.Writer{Dir: *flagOut, Prefix: "e2e", ShardSize: 150,
 		Imports:  "From Reservoir Require Import Base.Prelude Model.Range Check.Range.",
 		CaseType: "e2e_case", CheckFn: "check_e2e"}
@@ -83,6 +83,9 @@ func main() {
 					path := fmt.Sprintf("/r%d", caseNo)
 					body := content(caseNo, size)
 					etag := fmt.Sprintf("\"e%d\"", caseNo)
+					if r.Chance(25) {
+						etag = "W/" + etag // a weak stored validator
+					}
 					bodies[path], etags[path] = body, etag
 					chunked[path] = r.Chance(35)
 					var spec string
@@ -102,7 +105,7 @@ func main() {
 					default:
 						hasRange = false
 					}
-					irKind := r.Intn(6)
+					irKind := r.Intn(7)
 					var hs []string
 					irTerm := "IRNone"
 					if hasRange {
@@ -112,6 +115,13 @@ func main() {
 					case 1:
 						hs = append(hs, "If-Range: "+etag)
 						irTerm = "(IRTag " + emit.Str(etag) + ")"
+					case 6: // the stored tag with the weakness marker toggled: a different validator
+						other := "W/" + etag
+						if strings.HasPrefix(etag, "W/") {
+							other = etag[2:]
+						}
+						hs = append(hs, "If-Range: "+other)
+						irTerm = "(IRTag " + emit.Str(other) + ")"
 					case 2:
 						hs = append(hs, `If-Range: "other"`)
 						irTerm = "(IRTag " + emit.Str(`"other"`) + ")"
@@ -124,6 +134,26 @@ func main() {
 						hs = append(hs, "If-Range: "+t.Format(http.TimeFormat))
 						irTerm = "(IRTime " + emit.Z(t.Unix()) + ")"
 					}
+					// a fifth of the resources had an earlier version of ANOTHER length in the store: it is refilled
+					// (the entry is aged, the origin answers the revalidation with the new 200) by the request under
+					// test or just before it; the range answer must describe the object stored now
+					refilled := "no"
+					if r.Chance(20) {
+						old := content(caseNo+7777, emit.Pick(r, []int{3, 36, 200}))
+						bodies[path], etags[path] = old, "\"old"+etag[strings.IndexByte(etag, '"')+1:]
+						if _, err := env.DoPlain(env.PlainRequest("GET", path, nil, nil), "GET", 8*time.Second); err == nil {
+							env.Proxy.VerifCache().VerifAge(2 * time.Hour)
+							bodies[path], etags[path] = body, etag
+							refilled = "by-the-request"
+							if r.Bool() {
+								env.DoPlain(env.PlainRequest("GET", path, nil, nil), "GET", 8*time.Second)
+								refilled = "before-the-request"
+							}
+						} else {
+							bodies[path], etags[path] = body, etag
+						}
+					}
+					meta.Count("earlier_version_of_other_length", refilled)
 					var resp *e2elib.Response
 					var rerr error
 					if tlsOn {
